@@ -385,6 +385,20 @@ func VerifC05_CustomFinaliseRestoresEveryRef() {
 		}
 		c.ApplyToStore(symclient.Write{Verb: "delete", Kind: "Unstructured:Widget", Obj: c15Stored(c, name)})
 	}
+	// one of the two may already be back to the user's configuration (an earlier Finalise got that far before a
+	// write to the other failed, or the user re-applied it): it carries no snapshot any more — that says nothing
+	// about the other ref (seed C15-15: "already restored" on one ref ended the loop)
+	back := 0
+	if gone == 0 {
+		back = verifrt.IntRange("alreadyRestored.ref", 0, 2)
+	}
+	if back > 0 {
+		o := o1
+		if back == 2 {
+			o = o2
+		}
+		c.ApplyToStore(symclient.Write{Verb: "update", Kind: "Unstructured:Widget", Obj: o.DeepCopy()})
+	}
 	_, err := r.Finalise(context.TODO())
 	verifrt.Assert(err == nil, "C05.custom.finalise.noError")
 	if gone != 1 {
